@@ -1,6 +1,7 @@
 import ZipVerif.Gen.RawCopy
 import ZipVerif.Tie.WriterSM
 import ZipVerif.Model.RawCopyChunks
+import ZipVerif.Lemmas.RawCopyChunks
 /-
 Tie obligations for RAW COPY: `ZipWriter::raw_copy_file_rename` / `raw_copy_file` of src/write.rs
 (translator: helper t6w4, `rs2lean/src/t6w4.rs`; vocabulary `Basic/RsC.lean`; generated `Gen/ZipFileAcc.lean`
@@ -15,6 +16,7 @@ Tie obligations for RAW COPY: `ZipWriter::raw_copy_file_rename` / `raw_copy_file
                                the raw values crc32 / compressed / uncompressed size; `start_entry`; both flags;
                                the copy)
   sim_raw_copy_file            Gen.ZipWriter.raw_copy_file ~ Model.rawCopyChunks under the source entry's name
+  tie_file_options_default / tie_file_options_builders   `FileOptions::default()` and the three builders used
   sim_raw_copy_one             … ~ Model.rawCopy when the reader delivers its bytes in ONE chunk
 
 `Sim absR P x y` (Tie/WriterSM.lean): same I/O calls, outcome, value, final writer state (`absW`) and device for
@@ -221,6 +223,19 @@ theorem sim_io_copy (ext : Rs.S.Ext) (hacc : ∀ b, ext.accept b = b.length) :
 
 /-! ### `raw_copy_file_rename`, `raw_copy_file` -/
 
+/-- `FileOptions::default()` (features deflate, time): Deflated, default level, the wall clock, no permissions,
+not a large file, no encryption -/
+theorem tie_file_options_default (now : Gen.DateTime) :
+    optOf (Gen.FileOptionsB.default now) =
+      { method := .deflated, level := none, time := Tie.DateTime.toModel now, permissions := none,
+        largeFile := false, encryptWith := none } := rfl
+
+/-- the three builders raw copy uses set their own field and nothing else -/
+theorem tie_file_options_builders (o : Gen.FileOptions) (m : Gen.CompressionMethod) (t : Gen.DateTime) (b : Bool) :
+    optOf (Gen.FileOptionsB.compression_method o m) = { optOf o with method := Tie.Types.methodOf m } ∧
+    optOf (Gen.FileOptionsB.last_modified_time o t) = { optOf o with time := Tie.DateTime.toModel t } ∧
+    optOf (Gen.FileOptionsB.large_file o b) = { optOf o with largeFile := b } := ⟨rfl, rfl, rfl⟩
+
 /-- the `large_file` decision of the source, in the model's words -/
 theorem big_eq (cs us : UInt64) :
     decide (max cs us > Gen.ZIP64_BYTES_THR) = decide ((if cs ≥ us then cs else us) > Model.ZIP64_BYTES_THR) := by
@@ -347,5 +362,51 @@ theorem sim_raw_copy_file (ext : Rs.S.Ext) (now : Gen.DateTime) (g : Gen.ZipWrit
     | error p => obtain ⟨e, s⟩ := p; simp only [pure_bind]
   rw [e]
   exact h
+
+theorem Delivers.head_le {scr : List Rs.RdRes} {c : Bytes} {cs : List Bytes} (h : Delivers scr (c :: cs)) :
+    c.length ≤ 8192 := by
+  generalize hcs : c :: cs = l at h
+  induction h with
+  | nil => cases hcs
+  | eof => cases hcs
+  | chunk c' rest cs' hne hle _ _ => cases hcs; exact hle
+  | intr rest cs' _ ih => exact ih hcs
+
+/-- a reader that delivers the entry's bytes in ONE read (an entry of at most 8 KiB): the model's `rawCopy`
+itself, for every device and every fault index -/
+theorem sim_raw_copy_one (ext : Rs.S.Ext) (now : Gen.DateTime) (g : Gen.ZipWriter)
+    (file : Rs.C.ZipFile Gen.ZipFileData) (name raw : Bytes)
+    (hf : ∀ f, g.files.getLast? = some f →
+      f.extra_field.length ≤ 9223372036854775807 ∧
+      f.data_start.toNat + f.extra_field.length < 18446744073709551616 ∧
+      f.header_start.toNat + 34 + f.file_name.length < 18446744073709551616)
+    (hname : name.length < 18446744073709551616)
+    (htime : (Tie.DateTime.toModel file.data.last_modified_time).datepart ≠ none)
+    (hacc : ∀ b, ext.accept b = b.length)
+    (hraw : Delivers file.raw [raw]) :
+    Sim absR (fun _ => True) (Rs.S.run (Gen.ZipWriter.raw_copy_file_rename ext now g file name))
+      (rawCopy ext.toWExt (dataOf file.data) raw name (absW g)) := by
+  rw [rawCopy_eq_chunks]
+  refine sim_raw_copy_file_rename ext now g file name [raw] hf hname htime hacc hraw ?_
+  have := hraw.head_le
+  simp only [List.flatten_cons, List.flatten_nil, List.append_nil]
+  omega
+
+/-- **The chunking is invisible on a fault-free sink** (`Lemmas/RawCopyChunks.lean`, restated here so that the
+statement is pinned with the tie): `rawCopyChunks chunks` - what the translated method is tied to - and
+`rawCopy chunks.flatten` - what C02 / C12 / C14 are proved about - end with the same outcome, the same writer
+state, the same sink contents and position, for every chunking of a raw stream not longer than the entry's
+`compressed_size` (the raw reader is an `io::Take` with that limit; with the `large_file` decision of the
+source this excludes the 4 GiB refusal). -/
+theorem raw_copy_chunking_invisible (ext : WExt) (src : FileData) (chunks : List Bytes) (name : Bytes) (s : WState)
+    (hI : Inv s) (ho : TimeOk src.time) (hne : ∀ c ∈ chunks, c ≠ [])
+    (hlen : chunks.flatten.length ≤ src.compressedSize.toNat) (d : Dev) :
+    ∃ o d1 d2, rawCopyChunks ext src chunks name s none d = (o, d1) ∧
+      rawCopy ext src chunks.flatten name s none d = (o, d2) ∧ d1.buf = d2.buf ∧ d1.pos = d2.pos :=
+  rawCopyChunks_split ext src chunks name s hI ho hne hlen d
+
+/-- non-vacuity: a reader script with an `Interrupted` failure between two chunks -/
+example : Delivers [.ok [1, 2, 3], .err .interrupted, .ok [4], .ok []] [[1, 2, 3], [4]] :=
+  .chunk _ _ _ (by simp) (by simp) (.intr _ _ (.chunk _ _ _ (by simp) (by simp) (.eof _)))
 
 end ZipVerif.Tie.WriterSM
